@@ -182,6 +182,40 @@ theorem sweepBucket_size (low : Nat) (b : List CEntry) (u ev : Nat) (h : bsize b
       · have := ih (u - e.size) (ev + 1) (by simp only [bsize]; omega)
         simp only [bsize, List.map_cons, List.sum_cons] at this ⊢; omega
 
+/-- **Second chance**: an entry whose reference bit is set survives the sweep of its bucket (with
+the bit cleared); only unreferenced entries are evicted -/
+theorem second_chance (low : Nat) (b : List CEntry) (u ev : Nat) (e : CEntry) (he : e ∈ b) (hr : e.refBit = true) :
+    ({ e with refBit := false } ∈ (sweepBucket low b u ev).1) ∨ (e ∈ (sweepBucket low b u ev).1) := by
+  induction b generalizing u ev with
+  | nil => cases he
+  | cons x rest ih =>
+    unfold sweepBucket
+    rcases List.mem_cons.mp he with rfl | hmem
+    · simp only [hr, if_true]
+      split <;> exact Or.inl List.mem_cons_self
+    · split
+      · split
+        · exact Or.inr (List.mem_cons_of_mem _ hmem)
+        · rcases ih u ev hmem with h | h
+          · exact Or.inl (List.mem_cons_of_mem _ h)
+          · exact Or.inr (List.mem_cons_of_mem _ h)
+      · simp only
+        split
+        · exact Or.inr hmem
+        · exact ih (u - x.size) (ev + 1) hmem
+
+/-- what the sweep removes was unreferenced: every entry of the bucket that is not in the
+result (in either form) had its reference bit clear -/
+theorem evicted_was_unreferenced (low : Nat) (b : List CEntry) (u ev : Nat) (e : CEntry) (he : e ∈ b)
+    (hgone : e ∉ (sweepBucket low b u ev).1 ∧ { e with refBit := false } ∉ (sweepBucket low b u ev).1) :
+    e.refBit = false := by
+  cases hr : e.refBit with
+  | false => rfl
+  | true =>
+    rcases second_chance low b u ev e he hr with h | h
+    · exact absurd h hgone.2
+    · exact absurd h hgone.1
+
 /-! ### operations -/
 
 theorem get_inv {s : State} (hi : Inv s) (key : Bytes) (want : Option Nat) : Inv (Cache.get s key want).1 := by
